@@ -156,7 +156,10 @@ pub enum Expect {
     Script(Vec<String>),
 }
 
+pub type MigrateCtl = Arc<(std::sync::atomic::AtomicBool, std::sync::Mutex<Option<std::task::Waker>>)>;
+
 pub struct World {
+    pub migrate: MigrateCtl,
     pub method: Method,
     pub expect: Expect,
     pub trace_on: bool,
@@ -198,6 +201,7 @@ impl World {
             }
         }
         World {
+            migrate: Arc::new((std::sync::atomic::AtomicBool::new(false), std::sync::Mutex::new(None))),
             method: sc.method.clone(),
             expect: match &sc.method {
                 Method::Fast => Expect::Nothing,
